@@ -1536,6 +1536,11 @@ def _make_gin_wrapper(fn, fn_or_cls, name, selector, allowlist, denylist):
     for arg_name in arg_names:
       if arg_name not in required_arg_names:
         new_kwargs.pop(arg_name, None)
+    # Likewise for keyword arguments: the caller's value wins below anyway, so
+    # don't evaluate (call) a configurable reference bound to such a parameter.
+    for kwarg in kwargs:
+      if kwarg not in caller_required_kwargs:
+        new_kwargs.pop(kwarg, None)
 
     # Get default values for configurable parameters.
     operative_parameter_values = initial_configurable_defaults.copy()
